@@ -78,6 +78,9 @@ type harness struct {
 
 	once  sync.Once
 	flows []*flow
+	// ctx is the context of the first activation (the one the boundary
+	// listener flows are started with)
+	ctx context.Context
 }
 
 func (node *harness) ConsumeEvent(ev event.IEvent) (result event.ConsumptionResult, err error) {
@@ -159,7 +162,12 @@ func newHarness(wr *wiring, idGenerator id.IGenerator, constructor constructor) 
 			actionTransformer = func(sequenceFlowId *schema.IdRef, action IAction) IAction {
 				node.cancellation.Do(func() {
 					verifhook.Point("act.cancel")
-					<-node.activity.Cancel()
+					// the activity stops answering once the context is
+					// done: do not wait for it forever then
+					select {
+					case <-node.activity.Cancel():
+					case <-node.ctx.Done():
+					}
 				})
 				return action
 			}
@@ -204,6 +212,7 @@ func (node *harness) run(ctx context.Context, sender tracing.ISenderHandle) {
 
 func (node *harness) NextAction(ctx context.Context, flow Flow) chan IAction {
 	node.once.Do(func() {
+		node.ctx = ctx
 		sender := node.tracer.RegisterSender()
 		go node.run(ctx, sender)
 		for i := range node.flows {
